@@ -35,6 +35,137 @@ type Proc struct {
 	Host        string
 	ClockOffset time.Duration
 	Dead        atomic.Bool
+	// standby: from SuspendAt (simulated time since the start of the run) the
+	// process is frozen for SuspendFor: its tickers do not advance, its
+	// goroutines are not released at park points, its monotonic clock stands
+	// still while its wall clock (like everybody's) goes on
+	SuspendAt  time.Duration
+	SuspendFor time.Duration
+	sim        *Sim
+}
+
+// suspendWindow returns the real (bubble clock) interval of the standby.
+func (p *Proc) suspendWindow() (time.Time, time.Time, bool) {
+	if p == nil || p.SuspendFor <= 0 {
+		return time.Time{}, time.Time{}, false
+	}
+	s := p.sim
+	if s == nil {
+		s = cur.Load()
+	}
+	if s == nil {
+		return time.Time{}, time.Time{}, false
+	}
+	from := s.start.Add(p.SuspendAt)
+	return from, from.Add(p.SuspendFor), true
+}
+
+// Suspended reports whether the process is in standby right now.
+func (p *Proc) Suspended() bool {
+	from, to, ok := p.suspendWindow()
+	now := time.Now()
+	return ok && !now.Before(from) && now.Before(to)
+}
+
+// holdWhileSuspended blocks the calling goroutine until the standby is over.
+func (p *Proc) holdWhileSuspended() {
+	from, to, ok := p.suspendWindow()
+	if !ok {
+		return
+	}
+	if now := time.Now(); !now.Before(from) && now.Before(to) {
+		time.Sleep(to.Sub(now))
+	}
+}
+
+// suspendedBetween is how much of [a, b] (bubble clock) the process spent in standby.
+func (p *Proc) suspendedBetween(a, b time.Time) time.Duration {
+	from, to, ok := p.suspendWindow()
+	if !ok || !b.After(a) {
+		return 0
+	}
+	if a.Before(from) {
+		a = from
+	}
+	if b.After(to) {
+		b = to
+	}
+	if !b.After(a) {
+		return 0
+	}
+	return b.Sub(a)
+}
+
+// activeDeadline is the bubble-clock instant at which d of the process's own
+// (monotonic) time has passed since start.
+func (p *Proc) activeDeadline(start time.Time, d time.Duration) time.Time {
+	end := start.Add(d)
+	from, to, ok := p.suspendWindow()
+	if !ok || !start.Before(to) || !end.After(from) {
+		return end
+	}
+	if start.Before(from) {
+		return end.Add(to.Sub(from))
+	}
+	return to.Add(d)
+}
+
+// Sleep sleeps d of the calling process's own time (standby does not count).
+func Sleep(d time.Duration) {
+	p := CurProc()
+	if p == nil {
+		time.Sleep(d)
+		return
+	}
+	time.Sleep(time.Until(p.activeDeadline(time.Now(), d)))
+}
+
+// Ticker stands in for time.Ticker in rewritten code (T4): it does not advance
+// while the owning process is in standby.
+type Ticker struct {
+	C    <-chan time.Time
+	real *time.Ticker
+	stop chan struct{}
+	once sync.Once
+}
+
+// NewTicker replaces time.NewTicker.
+func NewTicker(d time.Duration) *Ticker {
+	p := CurProc()
+	if _, _, ok := p.suspendWindow(); !ok {
+		rt := time.NewTicker(d)
+		return &Ticker{C: rt.C, real: rt}
+	}
+	c := make(chan time.Time, 1)
+	t := &Ticker{C: c, stop: make(chan struct{})}
+	go func() {
+		last := time.Now()
+		for {
+			next := p.activeDeadline(last, d)
+			tm := time.NewTimer(time.Until(next))
+			select {
+			case <-t.stop:
+				tm.Stop()
+				return
+			case <-tm.C:
+			}
+			last = next
+			select {
+			case c <- time.Now().Add(p.ClockOffset):
+			default:
+			}
+		}
+	}()
+	return t
+}
+
+// Stop stops the ticker.
+func (t *Ticker) Stop() {
+	if t.real != nil {
+		t.real.Stop()
+		return
+	}
+	t.once.Do(func() { close(t.stop) })
 }
 
 type req struct {
@@ -310,12 +441,20 @@ func (s *Sim) park(g *G, kind, detail string, decide func(t *Tape) string) {
 		}
 		return
 	}
+	if g.Proc != nil && g.Proc.SuspendFor > 0 {
+		s.mu.Unlock()
+		g.Proc.holdWhileSuspended()
+		s.mu.Lock()
+	}
 	g.npark++
 	r := &req{g: g, key: g.Name + "#" + strconv.Itoa(g.npark), kind: kind, detail: detail, decide: decide, ch: make(chan struct{})}
 	s.parked = append(s.parked, r)
 	s.mu.Unlock()
 	s.notify()
 	<-r.ch
+	if g.Proc != nil && g.Proc.SuspendFor > 0 {
+		g.Proc.holdWhileSuspended()
+	}
 }
 
 // freeTape yields only benign choices; used when parks pass through.
@@ -633,8 +772,18 @@ func Now() time.Time {
 	return time.Now()
 }
 
-// Since is time.Since on the process's wall clock.
-func Since(t time.Time) time.Duration { return Now().Sub(t) }
+// Since is time.Since for the calling process: wall clock difference for a
+// time without monotonic reading (e.g. parsed from a lock file), else the
+// process's monotonic clock, which stands still during standby.
+func Since(t time.Time) time.Duration {
+	now := Now()
+	d := now.Sub(t)
+	if p := CurProc(); p != nil && p.SuspendFor > 0 && strings.Contains(t.String(), " m=") {
+		realNow := time.Now()
+		d -= p.suspendedBetween(realNow.Add(-d), realNow)
+	}
+	return d
+}
 
 // Getpid is the calling simulated process's PID.
 func Getpid() int {
@@ -692,7 +841,7 @@ func (p *Process) Signal(sig os.Signal) error {
 
 // NewProc registers a simulated process.
 func (s *Sim) NewProc(name string, pid int, host string) *Proc {
-	p := &Proc{Name: name, PID: pid, Host: host}
+	p := &Proc{Name: name, PID: pid, Host: host, sim: s}
 	s.mu.Lock()
 	if s.procs == nil {
 		s.procs = map[int]*Proc{}
